@@ -15,6 +15,7 @@ def run(ctx, crate):
     D.rule_rows_newtype(ctx, crate)
     D.rule_width_source(ctx, crate)
     D.rule_line_kinds(ctx, crate)
+    D.rule_every_line_painted(ctx, crate)
     D.rule_shift_full_frame(ctx, crate)
     D.rule_bar_rows_split(ctx, crate)
     D.rule_height_guard(ctx, crate)
